@@ -524,7 +524,11 @@ def _cond_none(p, cls, m, n, port):
     if iff is None:
         return False, 'None-in-output flag is set unconditionally'
     t = iff.test
-    ok = isinstance(t, ast.Compare) and is_none(t.comparators[0]) and isinstance(t.ops[0], (ast.Is, ast.Eq)) and in_body
+    def none_cmp(e):
+        return isinstance(e, ast.Compare) and len(e.ops) == 1 and is_none(e.comparators[0]) and isinstance(e.ops[0], (ast.Is, ast.Eq))
+    ok = none_cmp(t) and in_body
+    if not ok and in_body and isinstance(t, ast.BoolOp) and isinstance(t.op, ast.Or) and all(none_cmp(v) for v in t.values) and len({ast.dump(v.left) for v in t.values}) == 1:
+        ok = True      # `x === null || x === undefined`: the two spellings of a missing value in JavaScript
     if not ok:
         return False, 'None-in-output flag is set under `{}` instead of "the field is None"'.format(node_text(t))
     if not is_true(n.value):
